@@ -96,9 +96,14 @@ def work(item):
         b = {"kind": "extend", "split": idxs, "seed": "%s/%d" % (name, k), "chain": k % 2 == 1}
         if name.startswith("extidx/"):
             b["ground_each"] = True
-        if k % 3 == 2 or (name.startswith("extidx/") and k == 0):
+        if k % 3 == 2 and not name.startswith("extidx/"):
             b["levels"] = 2
         diffcheck.diff_check(text, make_cfg(a), make_cfg(b), a, b, groups=groups, name=name, st=st)
+        if name.startswith("extidx/"):
+            # the same history with the added statements split over an extension and an extension of that extension
+            b3 = dict(b)
+            b3["levels"] = 2
+            diffcheck.diff_check(text, make_cfg(a), make_cfg(b3), a, b3, groups=groups, name=name, st=st)
         a2 = {"kind": "base", "split": idxs}
         b2 = {"kind": "parent_after_extend", "split": idxs, "seed": "%s/%d" % (name, k)}
         diffcheck.diff_check(text, make_cfg(a2), make_cfg(b2), a2, b2, groups=groups, name=name, st=st)
